@@ -1,6 +1,7 @@
 import Batteries.Tactic.Alias
 import GenlmModel.Proofs.Linear
 import GenlmModel.Proofs.LimLinear
+import GenlmModel.Proofs.Tarjan
 /-! # C15 — algebraic path solver -/
 namespace Genlm.Props.C15
 alias solve_left_equation := Genlm.solveLeft_eq
@@ -28,4 +29,14 @@ alias closure_scc_eq_reference := Genlm.closureScc_eq_closureRef
 alias solve_left_least := Genlm.solveLeft_least
 alias solve_right_least := Genlm.solveRight_least
 alias solvers_least_of_checked_blocks := Genlm.solve_least_of_sccCheck
+
+/-! ## Tarjan's algorithm as `scc_decomposition` implements it (single `lowest` dict, recursive DFS over `incoming`) -/
+/-- for every finite graph and EVERY iteration order of the node / successor sets: the emitted components are disjoint, cover
+exactly the nodes reachable from the roots, two nodes share a component iff they reach each other, and a component is emitted
+after every component it reaches -/
+alias tarjan_correct := Genlm.tarjan_correct
+/-- `WeightedGraph.blocks` is an SCC decomposition listed in an order compatible with the edges … -/
+alias blocks_is_scc_decomposition := Genlm.tarjanBlocks_isSccDecomp
+/-- … which the exact checker accepts, whatever the order inside the frozensets -/
+alias blocks_accepted_by_checker := Genlm.tarjanBlocks_sccCheck_perm
 end Genlm.Props.C15
